@@ -124,6 +124,7 @@ def fn_breakdown(js):
     for mod in js['times-ms'].get('smt', {}).get('smt-run-module-times', []):
         for f in mod.get('function-breakdown', []):
             res[f['function'].split('::')[-1]] = f
+            f['_module'] = '::'.join(f['function'].split('::')[1:-1])
     return res
 
 
@@ -224,6 +225,25 @@ def verify_bundle(name, workdir, rlimit=30, canary=True):
                 ob.status = 'undecided'
                 ob.kind = 'rlimit'
                 ob.detail = und[0].text
+                # retry this function alone with a much larger resource limit: a refuted obligation often needs more
+                # solver effort than a provable one, and "undecided" would hide a real violation
+                mod = (info or {}).get('_module', '')
+                extra = ['--verify-function', fn] + (['--verify-only-module', mod] if mod else ['--verify-root'])
+                r2 = run_verus(path, max(200, rlimit * 6), extra, timeout=900)
+                b2 = parse_stderr(r2['err'])
+                ref2 = [b for b in b2 if b.kind and (any(l0 <= l <= l1 for l, _ in b.locs) or any(l0 <= l <= l1 for l in b.lines))]
+                und2 = [b for b in b2 if b.undecided]
+                ok2 = r2['json'] and r2['json'].get('verification-results', {}).get('errors') == 0 and \
+                    r2['json'].get('verification-results', {}).get('verified', 0) >= 1
+                if ref2:
+                    ob.status = 'refuted'
+                    ob.kind = ref2[0].kind
+                    ob.clause = ref2[0].clause
+                    ob.detail = '(after retry with rlimit %d)\n' % max(200, rlimit * 6) + '\n\n'.join(b.text for b in ref2)
+                elif ok2 and not und2:
+                    ob.status = 'discharged'
+                    ob.kind = ''
+                    ob.detail = 'discharged on retry with rlimit %d' % max(200, rlimit * 6)
             elif info is None and not mine and vr.get('success'):
                 # function generated no SMT query of its own (trivial body): Verus counts it verified
                 ob.status = 'discharged'
